@@ -375,6 +375,21 @@ def run(ctx, report):
     else:
         R3.violation('Expr.canonize', 'Expr.canonize', 'canonize has its own traversal', where(mod, fn))
 
+    from .. import exprobj
+    R5 = report.rule('C15.D5', 'equality evaluated from the source on pairs of the expression family: reflexive on identically built expressions, symmetric, != its negation, '
+                     'and equal expressions have equal hashes, widths and values', floor=60)
+    exprobj.emit_law(R5, ctx, 'eq')
+    R6 = report.rule('C15.D6', 'copy() evaluated on the family: the copy is equal, carries the evaluation flags, and shares no node object with the original', floor=20)
+    exprobj.emit_law(R6, ctx, 'copy')
+    R7 = report.rule('C15.D7', 'visit() evaluated on the family: the identity callback returns an equal expression; a callback renaming one identifier renames every occurrence '
+                     '(operands, conditions, slots, addresses, segment selectors of every node kind)', floor=40)
+    exprobj.emit_law(R7, ctx, 'visit-id')
+    exprobj.emit_law(R7, ctx, 'visit-rename')
+    R8 = report.rule('C15.D8', 'replace_expr evaluated: maps on identifiers (incl. swaps and chains) denote simultaneous substitution on every valuation; compound keys with equal hashes, '
+                     'overlapping keys and rotations give the simultaneous result; canonize keeps width and value', floor=30)
+    exprobj.emit_law(R8, ctx, 'replace')
+    exprobj.emit_law(R8, ctx, 'canonize')
+
     R4 = report.rule('C15.D4', 'operand reordering only under commutativity', floor=2)
     for m in (mod, hlp):
         for call in sort_sites(m):
